@@ -972,6 +972,82 @@ def new_stats():
             "table_kinds_seen": set(), "reply_cases": 0}
 
 
+def _two_pending_run(K, n1, n2, profile, limit=300):
+    """two requests of different kinds (registered by different layers / answered by different classes) outstanding
+    together, their ids as the library itself hands them out.  Entities of both kinds are generated alternately (up to
+    `limit` each) and the first two of different kinds that were given the SAME id are used; when the library never
+    repeats an id - as it must not - the last pair generated is used.  -> (case, problems)"""
+    rq1 = [q for q in K.REQS if q["name"] == n1][0]
+    rq2 = [q for q in K.REQS if q["name"] == n2][0]
+    flags = tuple(True for _ in R.FLAGS)
+    rng = random.Random(7)
+    seen1, seen2, pair, gens = {}, {}, None, 0
+    for _ in range(limit):
+        e1, mk1 = rq1["gen"](rng)
+        e2, mk2 = rq2["gen"](rng)
+        gens += 2
+        seen1[e1.getId()] = (e1, mk1)
+        seen2[e2.getId()] = (e2, mk2)
+        hit = e1.getId() if e1.getId() in seen2 else e2.getId() if e2.getId() in seen1 else None
+        if hit is not None:
+            pair = (seen1[hit], seen2[hit])
+            break
+        if type(e1) is type(e2):
+            break
+    (e1, mk1), (e2, mk2) = pair or ((e1, mk1), (e2, mk2))
+    rig = R.Rig(flags, False, profile)
+    names = lambda us: [type(u).__name__ if u is not None else "<None>" for u in us]
+    probs = []
+    rig.send(e1)
+    rig.send(e2)
+    ups1, d1, x1 = rig.recv(mk1(e1.getId()))
+    ups2, d2, x2 = rig.recv(mk2(e2.getId()))
+    case = {"two_pending": [n1, n2], "ids": [e1.getId(), e2.getId()], "entities_generated": gens,
+            "steps": ["the library numbers the entities it creates; entities of both kinds are created alternately",
+                      "application sends request 1", "application sends request 2", "server answers request 1",
+                      "server answers request 2"],
+            "observed_up": [names(ups1), names(ups2)], "expected_up": [[rq1["result"]], [rq2["result"]]]}
+    if e1.getId() == e2.getId():
+        probs.append(("oracle:reply_once", "two different requests outstanding together were given the same id %r"
+                      % e1.getId()))
+    if names(ups1) != [rq1["result"]] or names(ups2) != [rq2["result"]] or d1 or d2 or x1 or x2:
+        probs.append(("oracle:reply_once", "answers to two outstanding requests: entities at the application %r / %r, "
+                      "expected %r / %r" % (names(ups1), names(ups2), [rq1["result"]], [rq2["result"]])))
+    if probs:
+        case["problem"] = "; ".join(p[1] for p in probs)
+    return case, probs
+
+
+def two_pending_sweep(ctx, profile, stats):
+    """every pair of request kinds answered by different classes or registered by different layers, both outstanding,
+    with the ids the library generates (see _two_pending_run)"""
+    K = kinds()
+    regs = [q for q in K.REQS if q["result"]]
+    n = 0
+    for i, q1 in enumerate(regs):
+        for q2 in regs[i + 1:]:
+            if q1["module"] == q2["module"] and q1["result"] == q2["result"]:
+                continue
+            case, probs = _two_pending_run(K, q1["name"], q2["name"], profile)
+            n += 1
+            if probs:
+                ctx.violation(probs[0][0], case, key="two_pending:%s" % probs[0][0])
+                stats["two_pending_cases"] = n
+                return
+    stats["two_pending_cases"] = n
+
+
+def replay_two_pending(ctx, data, profile):
+    case = data["case"]
+    c2, probs = _two_pending_run(kinds(), case["two_pending"][0], case["two_pending"][1], profile)
+    print("ids:", c2["ids"], "observed:", c2["observed_up"], "expected:", c2["expected_up"])
+    if probs:
+        print("VIOLATION property=%s replay=(replayed)" % ctx.pid)
+        return 1
+    print("property holds on this input now")
+    return 0
+
+
 def replay_case(ctx, data, profile):
     """re-run a recorded case on the implementation; 1 if the property oracle still fails"""
     case = data["case"]
@@ -980,6 +1056,8 @@ def replay_case(ctx, data, profile):
         return replay_history(ctx, data, profile, ctx.pid == "C07")
     if "handler_retry" in case:
         return replay_handler_retry(ctx, data, profile)
+    if "two_pending" in case:
+        return replay_two_pending(ctx, data, profile)
     if "lifecycle" in case:
         return replay_lifecycle(ctx, data, profile)
     if "request" in case and "gen_seed" in case:
